@@ -12,7 +12,7 @@ except ImportError:
     from ordereddict import OrderedDict
 
 import re
-from copy import deepcopy
+from copy import copy, deepcopy
 import inspect
 import itertools
 import numpy
@@ -854,6 +854,23 @@ class CythonGroup(Group):
     def get_reduce_code(self):
         return self._get_code(kernel=None, kind='reduce')
 
+    @staticmethod
+    def _common_type_instance(first, second):
+        """One C class is generated per Python class, typed from one of its
+        instances.  Return an instance to type it from when `first` and
+        `second` are two instances of the class: an attribute that is an int
+        in one and a float in the other is declared as a float (otherwise
+        the float of the other instance would be truncated).
+        """
+        promote = [k for k, v in second.__dict__.items()
+                   if type(v) is int and
+                   type(first.__dict__.get(k)) is float]
+        if promote:
+            second = copy(second)
+            for k in promote:
+                setattr(second, k, float(getattr(second, k)))
+        return second
+
     def get_equation_wrappers(self, known_types={}):
         classes = defaultdict(lambda: 0)
         eqs = {}
@@ -864,6 +881,8 @@ class CythonGroup(Group):
                 camel_to_underscore(equation.name), n
             )
             classes[cls] += 1
+            if cls in eqs:
+                equation = self._common_type_instance(eqs[cls], equation)
             eqs[cls] = equation
         wrappers = []
         predefined = dict(get_predefined_types(self.pre_comp))
